@@ -71,6 +71,27 @@ def build_problem(case):
         Am = np.diag(d).astype(dt)
         Aop = sp.linop.Multiply([n, 1], d.reshape(n, 1).astype(dt))
         m = n
+    elif kind == "circulant":
+        # periodic (shift-invariant) operator: A = F^H diag(s) F. Every Fourier vector, the constant one included,
+        # is an eigenvector of A^H A; the constant vector's eigenvalue |s_0|^2 is the SMALLEST here.
+        Fm = np.fft.fft(np.eye(n), axis=0, norm="ortho")
+        mod = np.exp(rng.uniform(np.log(lo), 0, size=n))
+        mod[0] = lo
+        if n > 1:
+            mod[1] = 1.0
+        if cplx:
+            sv = mod * np.exp(2j * np.pi * rng.uniform(size=n))
+        else:
+            sv = mod.astype(complex)
+            for kk in range(1, n):          # conjugate-symmetric spectrum -> real circulant matrix
+                sv[kk] = mod[min(kk, n - kk)] * (np.exp(2j * np.pi * rng.uniform()) if kk < n - kk else 1.0)
+            for kk in range(1, n):
+                if kk > n - kk:
+                    sv[kk] = np.conj(sv[n - kk])
+        Am = Fm.conj().T @ np.diag(sv) @ Fm
+        Am = (Am if cplx else np.real(Am)).astype(dt)
+        Aop = sp.linop.MatMul([n, 1], Am)
+        m = n
     elif kind == "fft":
         F = np.fft.fftshift(np.fft.fft(np.fft.ifftshift(np.eye(n), axes=0), axis=0, norm="ortho"), axes=0)
         Am = F.astype(np.complex128)
@@ -87,11 +108,24 @@ def build_problem(case):
         Aop = sp.linop.MatMul([n, 1], Bm) * sp.linop.Multiply([n, 1], d.reshape(n, 1).astype(dt))
         m = n
     y = (rng.standard_normal(m) + (1j * rng.standard_normal(m) if cplx else 0)).astype(dt).reshape(m, 1)
-    lamda = case["lamda"]
+    c = float(case.get("ascale", 1.0))
+    if c != 1.0 and kind in ("dense", "diag", "comp", "circulant"):
+        # the equivalent problem in other units: A' = cA, x' = x/c, mu' = c mu, lamda' = c^2 lamda, z' = z/c (c a power
+        # of two: the same iterates up to exact scaling for every scale-covariant solver configuration)
+        Am = Am * c
+        if kind == "dense" or kind == "circulant":
+            Aop = sp.linop.MatMul([n, 1], Am.astype(dt))
+        elif kind == "diag":
+            Aop = sp.linop.Multiply([n, 1], (d * c).reshape(n, 1).astype(dt))
+        else:
+            Aop = sp.linop.MatMul([n, 1], (Bm * c).astype(dt)) * sp.linop.Multiply([n, 1], d.reshape(n, 1).astype(dt))
+    else:
+        c = 1.0
+    lamda = case["lamda"] * c * c
     z = None
     if case["z"]:
-        z = (rng.standard_normal(n) + (1j * rng.standard_normal(n) if cplx else 0)).astype(dt).reshape(n, 1)
-    gk = case["G"]
+        z = ((rng.standard_normal(n) + (1j * rng.standard_normal(n) if cplx else 0)) / c).astype(dt).reshape(n, 1)
+    gk = case["G"] if c == 1.0 else None
     Gm = None
     Gop = None
     if gk == "square":
@@ -110,7 +144,7 @@ def build_problem(case):
         Gm = (np.eye(n) - np.roll(np.eye(n), 1, axis=0)).astype(dt)
     gshape = [n, 1] if Gop is None else list(Gop.oshape)
     pk = case["proxg"]
-    gpar = case["mu"]
+    gpar = case["mu"] * (c if pk == "l1" else c * c if pk == "l2" else 1.0 / c if pk == "box" else 1.0)
     proxg = None
     if pk == "l1":
         proxg = sp.prox.L1Reg(gshape, gpar)
@@ -120,12 +154,13 @@ def build_problem(case):
         proxg = sp.prox.BoxConstraint(gshape, -gpar, gpar)
     x0 = None
     if case["x0"]:
-        x0 = (0.5 * (rng.standard_normal(n) + (1j * rng.standard_normal(n) if cplx else 0))).astype(dt).reshape(n, 1)
+        x0 = (0.5 / c * (rng.standard_normal(n) + (1j * rng.standard_normal(n) if cplx else 0))).astype(dt).reshape(n, 1)
         if pk == "box" and Gop is None:
             x0 = np.clip(x0.real, -gpar, gpar).astype(dt)
     y = _lay(y, case.get("layout", "c"))
     prob = Problem(Am, y, lamda, z, Gm, pk, gpar)
-    return dict(Aop=Aop, Am=Am, y=y, z=z, Gop=Gop, Gm=Gm, proxg=proxg, x0=x0, prob=prob, n=n, m=m, dt=dt, lamda=lamda)
+    return dict(Aop=Aop, Am=Am, y=y, z=z, Gop=Gop, Gm=Gm, proxg=proxg, x0=x0, prob=prob, n=n, m=m, dt=dt, lamda=lamda,
+                ascale=c, gpar=gpar)
 
 
 def step_kwargs(case, P, solver):
@@ -167,6 +202,8 @@ def check_case(case):
     P = build_problem(case)
     if case.get("layout", "c") != "c":
         r.label("layout:" + case["layout"])
+    if P.get("ascale", 1.0) != 1.0:
+        r.label("A-scale:2^%d" % int(round(np.log2(P["ascale"]))))
     r.label("A:" + case["A"], "G:" + str(case["G"]), "prox:" + str(case["proxg"]), "lamda>0" if case["lamda"] else "lamda=0",
             "z" if case["z"] else "no-z", "given" if case["given"] else "defaulted", "cplx" if case["cplx"] else "real")
     r.sig = "|".join("%s=%s" % (k, case[k]) for k in sorted(case) if k not in ("part", "prelude", "seed"))
@@ -179,10 +216,11 @@ def check_case(case):
         # the SAME operator / prox / array objects are used for a second, different problem (another lamda and
         # another observation): nothing a previous solve left behind on them may leak into this one
         rng = np.random.default_rng(case["seed"] + 1)
-        lam2 = {"up": P["lamda"] + 2.0, "down": 0.0 if P["lamda"] else 0.25, "same": P["lamda"]}[case["reuse"]]
+        c2 = P.get("ascale", 1.0) ** 2
+        lam2 = {"up": P["lamda"] + 2.0 * c2, "down": 0.0 if P["lamda"] else 0.25 * c2, "same": P["lamda"]}[case["reuse"]]
         y2 = (rng.standard_normal(P["y"].shape) + (1j * rng.standard_normal(P["y"].shape) if np.iscomplexobj(P["y"]) else 0)).astype(P["dt"])
         P2 = dict(P, y=y2, lamda=lam2, z=P["z"] if lam2 > 0 else None)
-        P2["prob"] = Problem(P["Am"], y2, lam2, P2["z"], P["Gm"], case["proxg"], case["mu"])
+        P2["prob"] = Problem(P["Am"], y2, lam2, P2["z"], P["Gm"], case["proxg"], P["gpar"])
         r.label("reuse:" + case["reuse"])
         _solve_all(r, case, P2, ":reused-objects")
     return r
@@ -217,6 +255,8 @@ def _solve_all(r, case, P, tag):
     slack = 1e-3 * max(F0 - Fstar, abs(Fstar), 1e-9)
     results = {}
     for solver in SOLVERS:
+        if P.get("ascale", 1.0) != 1.0 and solver in ("PrimalDualHybridGradient", "ADMM"):
+            continue        # sigma / rho given in fixed units are not scale-covariant: budgets would not transfer
         name = solver or "default"
         eff = solver
         if solver is None:
@@ -282,8 +322,8 @@ def _solve_all(r, case, P, tag):
         results[name] = Fx
         if case["proxg"] == "box":
             v = (prob.G @ x.ravel())
-            viol = float(np.max(np.maximum(np.abs(v.real) - case["mu"], 0)))
-            if viol > 1e-4:
+            viol = float(np.max(np.maximum(np.abs(v.real) - P["gpar"], 0)))
+            if viol > 1e-4 * P["gpar"] / case["mu"]:
                 r.fail("infeasible:%s:%s%s" % (eff, _cfg(case), tag), "G x leaves the box by %.3e" % viol)
                 continue
             # objective without the indicator for a slightly infeasible point
@@ -314,7 +354,7 @@ def st_case(draw):
     c = {
         "seed": draw(st.integers(0, 10 ** 6)), "n": draw(st.integers(1, 5)), "m": draw(st.integers(1, 6)),
         "cplx": draw(st.booleans()),
-        "A": draw(st.sampled_from(["dense", "dense", "identity", "diag", "fft", "comp"])),
+        "A": draw(st.sampled_from(["dense", "dense", "identity", "diag", "fft", "comp", "circulant"])),
         "lamda": draw(st.sampled_from([0, 0, 0.25, 1.0])), "z": draw(st.booleans()),
         "proxg": draw(st.sampled_from([None, "l1", "l2", "box"])),
         "G": draw(st.sampled_from([None, None, "square", "wide", "tall", "findiff"])),
@@ -327,6 +367,8 @@ def st_case(draw):
         "reuse": draw(st.sampled_from([None, None, None, "up", "up", "down", "same"])),
         # memory layout of the caller's x (when given) and y: contiguous or a view of a larger buffer
         "layout": draw(st.sampled_from(["c", "c", "strided", "column"])),
+        # overall magnitude of A (the same problem in other units), exact powers of two
+        "ascale": draw(st.sampled_from([1.0] * 5 + [2.0 ** -17, 2.0 ** -17, 2.0 ** 17])),
     }
     if c["proxg"] == "box":
         c["cplx"] = False
